@@ -50,6 +50,8 @@ def message(seed, name, peer, idx):
         ip = b"::ffff:127.0.0.1"
         body = f("ver", 28) + ip + f("p1", 10) + ip + f("p2", 10)
         return (b"version", body + bytes([len(ua)]) + ua + (peer * 10 + idx).to_bytes(4, "little") + b"\x01")
+    if name == "badping":
+        return (b"ping", bytes([peer + 1, idx + 1]) + f("ping", 7))      # 9-byte nonce: malformed, the handler may fail
     if name == "verack":
         return (b"verack", b"")
     if name == "inv":
@@ -142,6 +144,9 @@ def expected(seed, script):
     exp = []
     for peer, names in enumerate(script):
         sent, queued, ver = [], [], None
+        if "badping" in names:
+            exp.append(None)       # a peer that sends a malformed message: nothing is demanded for IT, everything for the others
+            continue
         for i, nm in enumerate(names):
             c, p = message(seed, nm, peer, i)
             parsed = p2p.parse_payload(c, p)
@@ -198,11 +203,16 @@ def judge(seed, script, obs):
         return [("C18/termination/horizon", f"threads still running after {obs['steps']} scheduling points")]
     if obs["abort"] == "deadlock":
         return [("C18/termination/deadlock", f"receive threads deadlock: {obs.get('deadlock')}")]
-    if obs["errors"]:
-        return [("C18/thread-raised", f"receive thread(s) died: {obs['errors']}")]
+    errs = {t: e for t, e in obs["errors"].items() if exp[t] is not None}
+    if errs:
+        return [("C18/thread-raised", f"receive thread(s) died: {errs}")]
     q = obs["queue"]
-    total = sum(len(e["queued"]) for e in exp)
+    total = sum(len(e["queued"]) for e in exp if e is not None)
+    if any(e is None for e in exp):
+        q = [m for m in q if not (isinstance(m, tuple) and len(m) == 3 and exp[m[0]] is None)]
     for peer, e in enumerate(exp):
+        if e is None:
+            continue
         if obs["sent"][peer] != e["sent"]:
             out.append(("C18/replies/wrong", f"peer {peer}: sent {[s[4:16].rstrip(bytes(1)) for s in obs['sent'][peer]]} "
                         f"({len(obs['sent'][peer])} msgs), expected {[s[4:16].rstrip(bytes(1)) for s in e['sent']]}"))
@@ -261,7 +271,9 @@ def jobs(tier, seed):
         pairs = [(two[0], two[1]), (two[0], two[0]), (two[2], two[2]), (two[1], two[2]),
                  (["version", "unknown"], ["unknown", "version"]), (["version", "unknown"], ["version", "unknown"]),
                  (["unknown", "unknown"], ["ping", "inv"]), (["inv", "ping"], ["unknown", "version"]),
-                 (["version", "version"], ["version", "inv"]), (["ping", "ping"], ["verack", "addr"])]
+                 (["version", "version"], ["version", "inv"]), (["ping", "ping"], ["verack", "addr"]),
+                 # one peer misbehaves (malformed ping): the OTHER peer's messages must be handled / queued all the same
+                 (["badping", "inv"], ["ping", "inv"]), (["inv", "badping"], ["unknown", "ping"])]
     else:
         pairs = list(itertools.product(two, repeat=2)) + \
             list(itertools.product([["version", "unknown"], ["unknown", "version"], ["unknown", "unknown"], ["version", "version"]], repeat=2))
@@ -340,7 +352,7 @@ def run_job(job):
     if len({o for o in orders if len(set(o)) > 1}) >= 2:
         acc.ob("both_queue_orders")
     exp = expected(seed, script)
-    ks = [len(e["queued"]) for e in exp]
+    ks = [len(e["queued"]) if e is not None else None for e in exp]
     acc.extra["queued_per_peer"] = ks
     acc.extra["distinct_outcomes"] = len(acc.outcomes)
     acc.extra["complete_executions"] = ex.complete
